@@ -154,7 +154,24 @@ static struct json_object *build(const struct nodeval *n, int as_uint)
 			return json_object_new_uint64((uint64_t)n->iv);
 		return json_object_new_int64((int64_t)n->iv);
 	case N_DBL: return json_object_new_double(n->d);
-	case N_STR: return json_object_new_string_len(n->s, (int)n->slen);
+	case N_STR:
+		if (as_uint == 0)
+			return json_object_new_string_len(n->s, (int)n->slen);
+		else
+		{
+			/* the same bytes held in separately allocated storage: the node was grown by a set
+			 * (as_uint == 1), or grown further and then set back to the shorter text (== 2) */
+			struct json_object *o = json_object_new_string("");
+			if (as_uint == 2)
+			{
+				char tmp[160];
+				memcpy(tmp, n->s, n->slen);
+				memset(tmp + n->slen, 'x', 40);
+				json_object_set_string_len(o, tmp, (int)n->slen + 40);
+			}
+			json_object_set_string_len(o, n->s, (int)n->slen);
+			return o;
+		}
 	case N_ARR: return json_object_new_array();
 	case N_OBJ: return json_object_new_object();
 	}
@@ -430,6 +447,15 @@ static void one_string(const char *s, size_t len)
 	sb_hex(&d, s, len);
 	sb_printf(&d, " ascii=%.60s", s);
 	check_accessors(&n, 0);
+	if (len > 0 && len < 100)
+		for (int st = 1; st <= 2; st++)
+		{
+			sb_init_fixed(&d, cur, sizeof cur);
+			sb_printf(&d, "node=string storage=%s hex=", st == 1 ? "grown-by-set" : "grown-then-shortened");
+			sb_hex(&d, s, len);
+			sb_printf(&d, " ascii=%.60s", s);
+			check_accessors(&n, st);
+		}
 }
 static void fam_strings(void)
 {
